@@ -85,7 +85,8 @@ def rule_a(ctx, R):
         why = []
         for g in guards:
             if g["x"] != droot:
-                why.append("guard at %s tests %r, but the returned determinant is %r" % (g["where"], g["x"], droot))
+                why.append("the singularity guard at %s tests %s, but the value returned as `determinant` is %s: a determinant that is zero "
+                           "while the tested value is not (e.g. underflow of a square) is returned as Ok" % (g["where"], v.describe(g["x"]), v.describe(droot)))
                 continue
             # zero edge never reaches Ok
             if bi in body.reachable_from(g["zero"]):
@@ -259,7 +260,7 @@ def check_error_chain(ctx, body, v, err_root, ok_stmt):
     op = ok_stmt["rv"]["ops"][0]
     ret_inv = v.deep_root({"k": "move", "place": {"l": op["place"]["l"], "p": op["place"]["p"] + [{"k": "field", "name": "inverse"}]}})
     if inv_root != ret_inv:
-        return False, "left factor of the tested product (%r) is not the value returned as `inverse` (%r)" % (inv_root, ret_inv)
+        return False, "left factor of the tested product (%s) is not the value returned as `inverse` (%s)" % (v.describe(inv_root), v.describe(ret_inv))
     if not (self_root.kind == "arg" and self_root.base[1] == 1 and not self_root.path):
         return False, "right factor of the tested product is not the input matrix (self)"
     return True, ""
